@@ -173,8 +173,9 @@ def jobs(tier, seed):
     q = tier == "quick"
     n = 3 if q else 4
     out = []
-    for op in ("add", "subtract", "maximum", "less", "bitwise_and") + (() if q else ("equal", "minimum", "bitwise_xor", "multiply")):
-        out.append(dict(kind="rr", op=op, n=n))
+    # (cell * cell on 64-bit data is outside reach: a symbolic-by-symbolic multiplication; rs/sr cover multiplication by a constant operand)
+    for op in ("add", "subtract", "maximum", "less", "bitwise_and") + (() if q else ("equal", "minimum", "bitwise_xor")):
+        out.append(dict(kind="rr", op=op, n=3 if op == "subtract" else n))
     for op in ("negative", "invert", "absolute"):
         out.append(dict(kind="unary", op=op, n=n))
     out.append(dict(kind="unary", op="logical_not", n=n, dta="bool"))
@@ -195,3 +196,54 @@ def jobs(tier, seed):
 
 
 harness("C16.arith", jobs, sym_wrapped, conc)
+
+
+# ------------------------------------------------------------------ histogram
+def _hist_kw(c):
+    kw = dict(bins=c["bins"])
+    if c["range"] is not None:
+        kw["range"] = tuple(c["range"])
+    if c["density"]:
+        kw["density"] = True
+    return kw
+
+
+def run_hist(c, p):
+    from npstructures import RunLengthArray
+    a = RunLengthArray.from_array(typed(c["a"], "int64"))
+    h, e = np.histogram(a, **_hist_kw(c))
+    return h, e, a.to_array()
+
+
+def sym_hist(E, p, kf):
+    from symx import specs
+    n = E.concretize(E.int("n", 1, p["n"]))
+    a = [E.int(f"a{i}", -1, 5) for i in range(n)]
+    c = dict(a=a, bins=E.choose("bins", p["bins"]), range=E.choose("range", p["ranges"]), density=E.choose("density", [False, True]))
+    got = outcome(lambda: run_hist(c, p))
+    case = dict(p=p, c=c)
+    # numpy's histogram of the dense array (symbolic numpy: symbolic bin membership, exact IEEE quotients for density)
+    exp = outcome(lambda: np.histogram(typed(a, "int64"), **_hist_kw(c)) + (typed(a, "int64"),))
+    if got["k"] != exp["k"]:
+        return dict(goal=False, got=got, case=case)
+    return dict(goal=specs.obs_goal(got, exp) if got["k"] != "raise" else True, got=got, case=case)
+
+
+def conc_hist(case):
+    c = case["c"]
+    got = outcome(lambda: run_hist(c, case["p"]))
+    import warnings
+    with warnings.catch_warnings():
+        warnings.simplefilter("ignore")
+        exp = outcome(lambda: np.histogram(np.array(c["a"], dtype="int64"), **_hist_kw(c)) + (np.array(c["a"], dtype="int64"),))
+    if got["k"] == "raise" and exp["k"] == "raise":
+        exp = common.refused()
+    return got, exp, {"float_eq": True}
+
+
+def jobs_hist(tier, seed):
+    q = tier == "quick"
+    return [dict(h="C16.hist", p=dict(n=3 if q else 4, bins=[1, 2, 3], ranges=[None, [0, 4], [1, 3], [2, 2]] + ([] if q else [[-3, 9], [4, 1]])))]
+
+
+harness("C16.hist", jobs_hist, sym_hist, conc_hist)
